@@ -38,7 +38,7 @@ pub fn write_with_provenance(l: &Logical, prov: Prov, api: Api) -> Result<Vec<u8
         Prov::Memory => write_lib(l, api),
         Prov::Backed => {
             let first = write_lib(l, api)?;
-            rewrite(first, api, &[], l)
+            rewrite_into(first, api, &[], l, true)
         }
         Prov::Mixed => {
             // ids at even positions are written first and stay reader-backed, the others are added in memory
@@ -54,6 +54,13 @@ pub fn write_with_provenance(l: &Logical, prov: Prov, api: Api) -> Result<Vec<u8
 }
 
 fn rewrite(bytes: Vec<u8>, api: Api, add: &[u64], l: &Logical) -> Result<Vec<u8>, String> {
+    rewrite_into(bytes, api, add, l, false)
+}
+
+/// `reused_output`: the archive is written over the start of a stream that already holds 6000 bytes of older content
+/// (a reused buffer, a file overwritten without truncation); the archive is what lies between 0 and the final position
+fn rewrite_into(bytes: Vec<u8>, api: Api, add: &[u64], l: &Logical, reused_output: bool) -> Result<Vec<u8>, String> {
+    let old: Vec<u8> = if reused_output { vec![0xEE; 6000] } else { Vec::new() };
     let r = catch(|| -> Result<Vec<u8>, String> {
         match api {
             Api::Sync => {
@@ -61,18 +68,24 @@ fn rewrite(bytes: Vec<u8>, api: Api, add: &[u64], l: &Logical) -> Result<Vec<u8>
                 for id in add {
                     pm.add_tile(*id, l.tiles[id].clone()).map_err(|e| e.to_string())?;
                 }
-                let mut out = std::io::Cursor::new(Vec::new());
+                let mut out = std::io::Cursor::new(old.clone());
                 pm.to_writer(&mut out).map_err(|e| format!("rewrite: {e}"))?;
-                Ok(out.into_inner())
+                let end = out.position() as usize;
+                let mut b = out.into_inner();
+                b.truncate(end.max(127));
+                Ok(b)
             }
             Api::Async => {
                 let mut pm = block_on(PMTiles::from_async_reader(futures::io::Cursor::new(bytes))).map_err(|e| format!("reopen: {e}"))?;
                 for id in add {
                     pm.add_tile(*id, l.tiles[id].clone()).map_err(|e| e.to_string())?;
                 }
-                let mut out = futures::io::Cursor::new(Vec::new());
+                let mut out = futures::io::Cursor::new(old.clone());
                 block_on(pm.to_async_writer(&mut out)).map_err(|e| format!("rewrite: {e}"))?;
-                Ok(out.into_inner())
+                let end = out.position() as usize;
+                let mut b = out.into_inner();
+                b.truncate(end.max(127));
+                Ok(b)
             }
         }
     });
@@ -249,6 +262,12 @@ pub fn run(tier: &str) -> i32 {
     for c in if thorough { COMPS.to_vec() } else { vec![Compression::None, Compression::ZStd] } {
         items.extend(large_maps(c));
     }
+    // the top of the u64 id space (ids the format cannot address, but that the in-memory object accepts): a run that ends
+    // at u64::MAX is still one run. In-memory provenance only - an id of u64::MAX does not survive re-opening.
+    let top_first = items.len();
+    for c in COMPS {
+        items.extend(maps_over(&[u64::MAX - 3, u64::MAX - 2, u64::MAX - 1, u64::MAX], 2, c));
+    }
     let res: Vec<(usize, Prov, Api, Vec<(String, String)>)> = items
         .par_iter()
         .enumerate()
@@ -256,6 +275,9 @@ pub fn run(tier: &str) -> i32 {
             let mut out = Vec::new();
             for prov in PROVS {
                 for api in APIS {
+                    if i >= top_first && prov != Prov::Memory {
+                        continue;
+                    }
                     // async x non-memory provenance only on a third of the maps in quick
                     if !thorough && api == Api::Async && prov != Prov::Memory && i % 3 != 0 {
                         continue;
